@@ -46,6 +46,17 @@ def run(ctx):
     for ci in range(N):
         f = F.gen_forest(rng, 3, ctx.n(40, 100), lattice=False, zero_edges=False,
                          shape=str(rng.choice(['rrt', 'rrt', 'binary', 'star', 'caterpillar', 'isolated+tree'])))
+        if rng.random() < 0.2:
+            # node id 0 (valid, and falsy) on an ordinary un-branched node: swap labels with a slab node
+            nch_ = {}
+            for p_ in f['parents']:
+                nch_[p_] = nch_.get(p_, 0) + 1
+            slabs_ = [i_ for i_, p_ in zip(f['ids'], f['parents']) if p_ >= 0 and nch_.get(i_, 0) == 1]
+            if slabs_:
+                a_ = int(slabs_[int(rng.integers(len(slabs_)))])
+                m_ = {a_: 0, 0: a_}
+                f['ids'] = [m_.get(i_, i_) for i_ in f['ids']]
+                f['parents'] = [m_.get(p_, p_) if p_ >= 0 else -1 for p_ in f['parents']]
         ids = f['ids']
         T = '(mk %s)' % term(list(zip(f['ids'], f['parents'])))
         nt = F.nontrivial(f)
@@ -113,7 +124,10 @@ def run(ctx):
                 ident = [dict(presynapses=int(2 * m), postsynapses=int(3 * m)) for m in rng.integers(1, 6, size=int(rng.integers(2, 6)))]
                 ctx.case((str(comps), 'seg'), nontrivial=True)
                 ctx.count('op:segregation_index')
-                for name, cs, want in (('random', comps, None), ('separated', sep, 1.0), ('identical', ident, 0.0)):
+                # neurons with postsynapses only / presynapses only: every compartment has the same (pure) mixture -> 0
+                onlypost = [dict(presynapses=0, postsynapses=int(a)) for a in rng.integers(1, 9, size=int(rng.integers(2, 5)))]
+                onlypre = [dict(presynapses=int(a), postsynapses=0) for a in rng.integers(1, 9, size=int(rng.integers(2, 5)))]
+                for name, cs, want in (('random', comps, None), ('separated', sep, 1.0), ('identical', ident, 0.0), ('identical (post only)', onlypost, 0.0), ('identical (pre only)', onlypre, 0.0)):
                     st, v = guarded(navis.morpho.mmetrics.segregation_index, [dict(c) for c in cs])
                     d = dict(op='segregation_index', compartments=cs, kind=name)
                     if st != 'ok':
@@ -140,6 +154,17 @@ def run(ctx):
                         st, tv = guarded(navis.tortuosity, F.mk_neuron(sf))
                         if st != 'ok' or abs(tv - 1) > 1e-9:
                             ctx.violation('tortuosity of a straight segment is not 1', dict(op='tortuosity', forest=sf), tv if st != 'ok' else float(tv))
+                    # straight chains with integer-typed coordinates (signed and unsigned voxel coordinates)
+                    iv = rng.integers(0, 4, size=3); iv[int(rng.integers(3))] += 1
+                    steps_ = np.cumsum(rng.integers(1, 5, size=n))
+                    for dt_ in (np.int32, np.uint16, np.float32):
+                        sn = F.mk_neuron(dict(ids=list(range(1, n + 1)), parents=[-1] + list(range(1, n)), xyz=[tuple(int(v) for v in iv * t_ + 3) for t_ in steps_[::-1]]))
+                        for c_ in 'xyz':
+                            sn.nodes[c_] = sn.nodes[c_].values.astype(dt_)
+                        st, tv = guarded(navis.tortuosity, sn)
+                        ctx.count('op:tortuosity:' + np.dtype(dt_).name)
+                        if st != 'ok' or abs(tv - 1) > 1e-6:
+                            ctx.violation('tortuosity of a straight segment is not 1', dict(op='tortuosity', dtype=np.dtype(dt_).name, xyz=sn.nodes[['x', 'y', 'z']].values.tolist()), tv if st != 'ok' else float(tv))
                     st, sa = guarded(navis.segment_analysis, x)
                     d = dict(desc, op='segment_analysis')
                     ctx.case((str(ids), str(f['xyz']), 'sa'), nontrivial=nt)
